@@ -28,6 +28,8 @@ TraceNext ==
              /\ e.r.size = Bytes(e.a.ty) /\ e.r.align = Bytes(e.a.ty)
              /\ e.r.vs = Declared(o, v)                  \* wire format in guest memory
              /\ e.r.back = v
+             /\ e.r.gm = Declared(o, v)                 \* stored across region boundaries of guest memory: still the wire format
+             /\ e.r.arr = <<85>> \o Declared(o, v) \o Declared(o, v) \o Declared(o, v) \o <<85>>   \* a table moved inside guest memory
              /\ e.r.mem = WMem(o, v, Host),              \* and this is what the macro-shaped model computes
              "endian", [mem |-> Declared(o, v)])
     /\ l' = l + 1
